@@ -126,6 +126,8 @@ def _gen_main(rng, tier):
                     try:
                         b.decode()
                         yield f"from_str_radix {s}{cfg} {r} {hexs(b)}", t
+                        if rng.randrange(4) == 0:
+                            yield f"parse_str_radix {s}{cfg} {r} {hexs(b)}", t
                     except UnicodeDecodeError:
                         pass
                     t, b = str_case(rng, w, n, s == "i", r)
@@ -146,6 +148,7 @@ def _gen_main(rng, tier):
                     yield f"from_radix_le {s}{cfg} {r} {hexs(bytes(ds))}", t
             for r in (0, 1, 37, 257, 1000):
                 yield f"from_str_radix {s}{cfg} {r} 31", "bad-radix"
+                yield f"parse_str_radix {s}{cfg} {r} 31", "bad-radix"
                 yield f"from_radix_be {s}{cfg} {r} 01", "bad-radix"
                 yield f"from_radix_le {s}{cfg} {r} 01", "bad-radix"
 
